@@ -170,7 +170,7 @@ class C05(Check):
                     "CallProxy, lazy _eventMixin_init, event.halt) as repaired by D01 and D28; tied to the code by this correspondence run",
                     "harness: scripted handlers, event ids normalised by the value of revent._nextEventID at case start, "
                     "exception classes mapped to {revent, key, other}"]
-    assumptions = ["the same event *instance* is not raised twice (each raise gets a fresh event object); Event._invoke is not overridden",
+    assumptions = ["Event._invoke is not overridden (event objects may be raised again and forwarded: event.halt / event.source are shared)",
                    "reading of the one-shot clauses (see level_text): 'one-shot handlers are never invoked again' = the code of a one-shot "
                    "subscription runs at most once ever (the oracle demands it; open finding C05-1 on the tree as committed); 'handlers that ask "
                    "to be removed are never invoked again' = not by any raise that starts after the removal, a delivery already in flight keeps "
@@ -225,9 +225,15 @@ class C05(Check):
             self.unknown_shapes = ["d24", "d60", "oncePre", "junk"]
         self.variant_probe = self.probe_variant()
         self.variant = {k: (self.variant_probe[k] if self.variant_probe.get(k) is not None else self.variant_ast[k]) for k in self.variant_ast}
+        self._make_events()
+
+    def _make_events(self):
+        rv = self.rv
         self.Ev = []
+        reg = self._reg = {}
         def __init__(self, fid=None, *a, **k):
             self.fid = fid; self.xa = [list(a), sorted(k.items())]
+            reg[fid] = self                                   # every event object ever created, by the call that created it
         for i in range(N_ET):
             base = self.Ev[PARENT[i]] if i in PARENT else rv.Event
             d = {"idx": i}
@@ -235,6 +241,41 @@ class C05(Check):
             if i in (1, 4): d["__len__"] = lambda self_: 0          # a falsy event: nothing may test an event's truth value
             self.Ev.append(type("Ev%d" % i, (base,), d))
         self.Point = collections.namedtuple("Point", "a b")
+
+    def _fresh(self):
+        """a fresh copy of the module under test (HARDENING 1: state a change hides in the module or in a class would otherwise
+        leak from the thousands of earlier cases into the one being minimised, and the replay, run in a new process, would not fail)"""
+        import importlib
+        buf = io.StringIO()
+        with contextlib.redirect_stdout(buf), contextlib.redirect_stderr(buf):
+            self.rv = importlib.reload(self.rv)
+        self.rv.handleEventException = None            # the reloaded module prints tracebacks to stderr by default
+        self._make_events()
+
+    def shrink(self, case, key):
+        """as common.Check.shrink, but every candidate is judged on a freshly loaded module, so that the minimised history fails
+        on its own (in the replay's new process too); if the original history needs state left behind by earlier cases, a seed
+        history that fails on its own with the same key is used instead"""
+        evals = [0]
+        def fails_fresh(c):
+            evals[0] += 1
+            if evals[0] > 500: return False                  # bounded: each judgement reloads the module
+            self._fresh()
+            obs, f = self.fails(c)
+            return f is not None and self.finding_key(c, obs, f) == key
+        cur = case
+        if not fails_fresh(cur):
+            alt = [c for c in self.seeds() if fails_fresh(c)]
+            if not alt: return case
+            cur = alt[0]
+        for _ in range(200):
+            for c in self.shrink_candidates(cur):
+                if fails_fresh(c):
+                    cur = c; break
+            else:
+                break
+        self._fresh()
+        return cur
 
     # ------------------------------------------------------------------ concrete return values
     def _retval(self, ret):
@@ -293,9 +334,11 @@ class C05(Check):
                 C_ = classes[ck]                                                # two instances of ONE class: no state may be shared
             srcs.append(C_())
         base = rv._nextEventID
+        self._reg.clear()
+        reg, rootsrc, cur_events, srcchecks = self._reg, {}, [], []
         scripts = {h: l for h, l in case["scripts"]}
         log, snaps, rmchecks, addchecks, subs, bindchecks, junkchecks = [], {}, [], [], [], [], []
-        calls, funcs, owners, sinks, keep, running, deaths, argchecks = {}, {}, {}, {}, [], [], [], []
+        calls, funcs, owners, sinks, keep, running, deaths, argchecks, sinkobjs = {}, {}, {}, {}, [], [], [], [], {}
         state = {"fid": 0}
         EMPTY = {"halt": None, "acts": [], "ret": {"k": "none"}}
 
@@ -324,17 +367,22 @@ class C05(Check):
 
         def run_handler(hid, event, owner=None, a_=(), k_={}):
             argchecks.append([getattr(event, "fid", None), list(a_), sorted(k_.items())])
+            t_ = snaps.get(getattr(event, "fid", None))
+            if t_ is not None:
+                want_src = rootsrc.setdefault(id(event), t_["s"])      # the source the event object was first raised on
+                if event.source is not srcs[want_src]: srcchecks.append([event.fid, want_src])
             if owner is not None: running.append(owner)
+            cur_events.append(event)
             try:
                 return run_handler_(hid, event)
             finally:
+                cur_events.pop()
                 if owner is not None: running.pop()
 
         def run_handler_(hid, event):
             k = calls.get(hid, 0); calls[hid] = k + 1
             fid = event.fid
-            si = [j for j, s_ in enumerate(srcs) if s_ is event.source]
-            log.append(["call", fid, si[0] if si else -1, hid])
+            log.append(["call", fid, snaps[fid]["s"] if fid in snaps else -1, hid])
             sl = scripts.get(hid, [])
             sc = sl[k] if k < len(sl) else EMPTY
             if sc["halt"] is not None: event.halt = sc["halt"]
@@ -414,11 +462,17 @@ class C05(Check):
                     m.hid = hb + 10 * p_ + et
                     ns[mname(p_, et)] = m
                 via = a.get("via", 0) % 6
-                sink = type("Sink", (rv.EventMixin,) if via % 3 == 2 else (object,), ns)()
-                if weak is not None:
-                    sink.oid = weak; owners[weak] = sink
+                old = sinkobjs.get(hb)
+                if old is not None and (weak is None or owners.get(weak) is old):
+                    sink = old                                     # the same sink object bound again (to this or another source)
+                    if via % 3 == 2 and not isinstance(sink, rv.EventMixin): via -= 2
                 else:
-                    keep.append(sink)
+                    sink = type("Sink", (rv.EventMixin,) if via % 3 == 2 else (object,), ns)()
+                    sinkobjs[hb] = sink
+                    if weak is not None:
+                        sink.oid = weak; owners[weak] = sink
+                    else:
+                        keep.append(sink)
                 for p_, et in meths: sinks[hb + 10 * p_ + et] = (sink, mname(p_, et))
                 prefix = "" if q == 0 else (("p%d" % q) if via < 3 else ("_p%d" % q))       # both spellings of a prefix
                 w, pr = weak is not None, a["prio"]
@@ -460,6 +514,7 @@ class C05(Check):
                 o = owners.pop(a["o"], None)
                 if o is not None: deaths.append([a["o"], len(log)])
                 for h in [h for h, (snk, _) in sinks.items() if snk is o]: del sinks[h]      # the harness itself must not keep the sink alive
+                for h in [h for h, snk in sinkobjs.items() if snk is o]: del sinkobjs[h]
                 wr = weakref.ref(o) if o is not None else (lambda: None)
                 del o; gc.collect(1)
                 if wr() is not None: gc.collect()          # only a reference cycle could have kept it; none is built here
@@ -478,17 +533,32 @@ class C05(Check):
                 return res
             if op == "raise":
                 et, fid = a["et"], state["fid"]; state["fid"] += 1
-                snaps[fid] = {"s": i, "et": et, "noerr": a["noerr"], "form": a["form"], "pos": len(log),
+                form, reused = a["form"], None
+                if form in ("again", "fwd"):
+                    # the very event object an earlier call carried / the one the running handler is handling; else a fresh one
+                    reused = reg.get(a["f"]) if form == "again" else (cur_events[-1] if cur_events else None)
+                    form = "inst"
+                    if reused is not None: et = type(reused).idx
+                snaps[fid] = {"s": i, "et": et, "noerr": a["noerr"], "form": form, "pos": len(log), "reused": reused is not None,
                               "snap": [entry_view(x) for x in getattr(src, "_eventMixin_handlers", {}).get(Ev[et], [])], "result": None}
                 f = src.raiseEventNoErrors if a["noerr"] else src.raiseEvent
                 xa = a.get("xa", 0) % 3
                 snaps[fid]["xa"] = xa
+                old_fid = None
+                if form == "inst":
+                    if reused is not None:
+                        ev_ = reused; old_fid = ev_.fid; ev_.fid = fid; reg[fid] = ev_
+                    else:
+                        ev_ = Ev[et](fid)
+                    rootsrc.setdefault(id(ev_), i)
                 try:
-                    if xa == 0: r = f(Ev[et](fid)) if a["form"] == "inst" else f(Ev[et], fid)
-                    elif xa == 1: r = f(Ev[et](fid), 7, k=8) if a["form"] == "inst" else f(Ev[et], fid, 7, k=8)      # extra arguments
-                    else: r = f(Ev[et](fid), k=8) if a["form"] == "inst" else f(Ev[et], fid=fid, k=8)               # keywords only
+                    if xa == 0: r = f(ev_) if form == "inst" else f(Ev[et], fid)
+                    elif xa == 1: r = f(ev_, 7, k=8) if form == "inst" else f(Ev[et], fid, 7, k=8)      # extra arguments
+                    else: r = f(ev_, k=8) if form == "inst" else f(Ev[et], fid=fid, k=8)               # keywords only
                 except Exception as e:
                     snaps[fid]["result"] = ["exc", self._kind(e)]; raise
+                finally:
+                    if old_fid is not None: ev_.fid = old_fid          # an outer delivery of the same object goes on under its own number
                 if r is not None: snaps[fid]["evxa"] = getattr(r, "xa", None)
                 res = "none" if r is None else ["event", bool(r.halt)]
                 snaps[fid]["result"] = res
@@ -515,7 +585,7 @@ class C05(Check):
         final = [dump(i) for i in range(n)]
         return {"log": log, "frames": frames, "final": final, "count": [sum(len(l) for _, l in f) for f in final],
                 "inited": [hasattr(s_, "_eventMixin_handlers") for s_ in srcs],
-                "snaps": {str(k): v for k, v in snaps.items()}, "rmchecks": rmchecks, "addchecks": addchecks, "drops": drops, "subs": subs, "bindchecks": bindchecks, "deaths": deaths, "junkchecks": junkchecks, "argchecks": argchecks}
+                "snaps": {str(k): v for k, v in snaps.items()}, "rmchecks": rmchecks, "addchecks": addchecks, "drops": drops, "subs": subs, "bindchecks": bindchecks, "deaths": deaths, "junkchecks": junkchecks, "argchecks": argchecks, "srcchecks": srcchecks}
 
     # ------------------------------------------------------------------ model side
     def model_request(self, case):
@@ -647,7 +717,6 @@ class C05(Check):
                 if s["form"] == "cls" and s["result"] not in ("none", ["exc", "revent"]):
                     return "undeclared: class-form raise of an undeclared event type produced an event"
                 continue
-            if any(si != s["s"] for _, _, si in C): return "delivery: handler invoked with an event of another source"
             if any(self._stops(r, h) for _, _, r, h in R[:-1]): return "halt: delivery went on after a handler halted it"
             tail = S[ptr.get(fid, 0):]
             excused = lambda ent: dead_at(fid, ent, len(log)) or spent(fid, ent)
@@ -674,6 +743,9 @@ class C05(Check):
                     if any(e[3] == ent[3] for l in later for e in l):
                         return ("once: one-shot handler that raised %s is still subscribed" % r[1]) if raised else \
                                "once: a one-shot / remove-me handler is still subscribed after it ran"
+        # an event belongs to the source it was first raised on (forwarding it elsewhere does not change that)
+        for fid_, want_src in obs["srcchecks"]:
+            return "delivery: handler invoked with an event whose .source is not the source it was first raised on"
         # what the raiser passes besides the event reaches the handlers (instance form) or the event's constructor (class form) intact
         want_args = {0: ([], []), 1: ([7], [("k", 8)]), 2: ([], [("k", 8)])}
         for fid_, a_, k_ in obs["argchecks"]:
@@ -864,7 +936,28 @@ class C05(Check):
                           [(1, [sc(), sc([(add(0, 5, 9, s=0), False)]), sc(ret="true")])], sources=twin))
             S.append(case([add(3, 1), add(0, 1, via=1), add(0, 2, via=3), R(3), R(0), R(5, "cls"), bind([0, 1, 3], 100), R(0), R(1)], sources=[source([0, 1], kind=kind)]))
         S.append(case([add(0, 1), R(0), R(0, "cls"), cnt(), bind([0], 100), add(0, 1, via=1)], sources=[source([], kind="none")]))
+        # ... nor may a source learn anything from what another source (of another class) was asked before: the same by-name /
+        # by-type question to a source that declares the type and then to one that does not, in both orders, every spelling
+        for first in (0, 1):
+            for via in (0, 1, 2, 3, 4, 6):
+                S.append(case([add(0, 1, via=via, s=first), add(0, 2, via=via, s=1 - first), R(0, s=0), R(0, s=1), R(0, "cls", s=1 - first),
+                               add(0, 3, via=via, s=first), add(3, 4, via=via, s=0), add(3, 5, via=via, s=1), R(3, s=0), R(3, s=1), cnt(0), cnt(1)],
+                              sources=[source([0, 1]), source([1, 3])]))
         S.append(case([add(0, 1), R(0), R(0, "cls"), cnt()], sources=[source([], kind="set"), source([0])]))
+        # HARDENING 2 (object reuse): the same event object raised again (halted or not, on the same or the other source), forwarded from
+        # inside its own handler (event.halt and event.source are shared), the same sink bound twice and to two sources
+        two_ = [source([0, 1]), source([0, 1, 3])]
+        again = lambda f, s=0, noerr=False: dict(R(0, "again", noerr, s), f=f)
+        fwd = lambda s=0, noerr=False: R(0, "fwd", noerr, s)
+        S.append(case([add(0, 1), add(0, 2), add(0, 3, s=1), add(0, 4, s=1), R(0), again(0), again(0, 1), R(0, "cls"), again(3), again(3, 1), again(9), R(2), again(7)],
+                      [(2, [sc(ret="true"), sc(ret="other"), sc()]), (3, [sc(ret="other"), sc(halt=False, ret="other")])], sources=two_))
+        S.append(case([add(0, 1), add(0, 2), add(0, 3, s=1), add(0, 4, s=1), R(0), R(0, "cls"), again(0, 1, True)],
+                      [(1, [sc([(fwd(1), False)]), sc([(fwd(1, True), True), (fwd(0), True)], ret="other")]), (2, [sc(ret="other"), sc()]),
+                       (3, [sc(halt=True), sc(ret="tup1", h=True), sc()]), (4, [sc(ret="other")] * 3)], sources=two_))
+        S.append(case([add(0, 1), add(1, 2), add(3, 3, s=1), R(1), again(0), again(0, 1), R(3, s=1), again(3, 0), again(3, 1)],
+                      [(2, [sc([(fwd(0), True), (fwd(1), True)])])], sources=two_))
+        S.append(case([fwd(), add(0, 1), bind([0, 1], 100), bind([0, 1], 100, 3, None, 1), bind([0, 1, 3], 200, 0, 7, 0, 0, 1), bind([0, 1, 3], 200, 2, 7, 2, 0, 0),
+                       R(0), R(1), R(0, s=1), R(3, s=1), rmh(100), R(0), drop(7), R(0), R(0, s=1), cnt(0), cnt(1)], sources=two_))
         # HARDENING 3 (rare values): `once` given as 1 / "yes" / [0] / 0 / "" / None, priorities as floats and True, falsy handlers
         # (hid 3, 6), falsy owners (2), falsy events (Ev1, Ev4), the 300th subscription id
         for ov in range(4):
@@ -1009,17 +1102,27 @@ class C05(Check):
         if x < 0.59: return {"op": "count", "s": s}
         if x < 0.63: return {"op": "drop", "s": 0, "o": rng.choice([1, 2, 3] + ctx["sinkowners"])}
         if x < 0.67 and depth == 0 and not ctx["acceptAll"][s]:                     # sinks are bound at top level only (fresh identities)
+            if ctx["bindlist"] and rng.random() < 0.3:                              # the same sink object bound once more
+                b_ = dict(rng.choice(ctx["bindlist"])); b_["s"] = s; b_["via"] = rng.randint(0, 5)
+                b_["pfx"] = rng.choice([b_["pfx"], b_["pfx"], 0, 1]); b_["prio"] = rng.choice([0, b_["prio"], 3])
+                ctx["adds"] += len(b_["meths"])
+                return b_
             ctx["binds"] += 1
             weak = None
             if rng.random() < 0.4:
                 weak = 10 + ctx["binds"]; ctx["sinkowners"].append(weak)
             meths = sorted(rng.sample([(p_, et) for p_ in (0, 1, 2) for et in range(N_ET)], rng.randint(1, 7)))
             ctx["adds"] += len(meths)
-            return {"op": "bind", "s": s, "meths": [list(m) for m in meths], "pfx": rng.choice([0, 0, 1, 1, 2, 3]), "base": 100 * ctx["binds"],
-                    "prio": rng.choice([0, 0, 4, -2]), "weak": weak, "via": rng.randint(0, 5)}
+            b_ = {"op": "bind", "s": s, "meths": [list(m) for m in meths], "pfx": rng.choice([0, 0, 1, 1, 2, 3]), "base": 100 * ctx["binds"],
+                  "prio": rng.choice([0, 0, 4, -2]), "weak": weak, "via": rng.randint(0, 5)}
+            ctx["bindlist"].append(b_)
+            return b_
         if x > 0.985:
             return dict(self.raise_(0, rng.choice(["junkc", "junko"]), rng.random() < 0.3, s), v=rng.randint(0, 11))
         r_ = self.raise_(rng.choice(ets), rng.choice(["inst", "inst", "cls"]), rng.random() < 0.3, s)
+        y = rng.random()
+        if y < 0.07: r_["form"] = "again"; r_["f"] = rng.randint(0, 10)               # an event object raised before, raised again
+        elif y < 0.17 and depth > 0: r_["form"] = "fwd"                               # the event being handled, forwarded
         if rng.random() < 0.15: r_["xa"] = rng.randint(1, 2)
         return r_
 
@@ -1043,7 +1146,7 @@ class C05(Check):
                                        rng.choice(["set", "set", "list", "tuple", "frozenset"])))
         if nsrc == 2 and rng.random() < 0.4:                # two instances of one class
             sources[1] = dict(sources[0]); sources[0]["cls"] = sources[1]["cls"] = 1
-        ctx = {"adds": 0, "binds": 0, "sinkowners": [], "nsrc": nsrc, "acceptAll": [sd["acceptAll"] for sd in sources]}
+        ctx = {"adds": 0, "binds": 0, "sinkowners": [], "bindlist": [], "nsrc": nsrc, "acceptAll": [sd["acceptAll"] for sd in sources]}
         ops = [self.rand_action(rng, ctx, 0) for _ in range(nops)]
         scripts = []
         hids = [1, 2, 3, 4, 5, 6] + [100 * b + 10 * p_ + et for b in range(1, ctx["binds"] + 1) for p_ in (0, 1, 2) for et in range(N_ET)]
